@@ -311,9 +311,10 @@ def mk_sampler(sp):
     raise ValueError(k)
 
 
-def add_operands(t_or_list, sc, o, targets=None):
+def add_operands(t_or_list, sc, o, targets=None, first=0, upto=None):
+    """operands first..upto-1 of the scenario (all by default): registered on a Tolerancing, or built as Operand objects"""
     ops = []
-    for i, (ty, kw) in enumerate(sc['operands']):
+    for i, (ty, kw) in list(enumerate(sc['operands']))[first:upto]:
         kw = dict(kw)
         kw['optic'] = o
         if targets is None:
@@ -327,7 +328,7 @@ def setup(sc, info=None):
     RC[0], RC[1] = sc.get('c2shape', [0, 0])
     o = build(sc, sc.get('route', 'direct'))
     t = Tolerancing(o, method=sc.get('method', 'generic'), tol=sc.get('tol', 1e-5))
-    add_operands(t, sc, o)
+    add_operands(t, sc, o, upto=sc.get('ops_initial'))      # operand-edit histories register the others later
     if info is not None:
         # the nominal lens: before any perturbation / compensator is registered
         info['glass'] = {}
@@ -347,7 +348,9 @@ def setup(sc, info=None):
 
 
 def history_of(sc):
-    """steps executed on ONE Tolerancing object: ['mc', n] | ['sens'] | ['advance', j, k] (sampler j sampled k times by hand)"""
+    """steps executed on ONE Tolerancing object: ['mc', n] | ['sens'] | ['advance', j, k] (sampler j sampled k times by hand)
+    | ['addop', n] (further operands registered: the first n of the scenario are active from here on)
+    | ['compensate'] (a manual apply_compensators() on the nominal lens followed by reset())"""
     return sc.get('history') or [[sc['analysis'], sc['trials']] if sc['analysis'] == 'mc' else ['sens']]
 
 
@@ -432,8 +435,21 @@ def run_analysis(sc, observe=True):
     steps = []
     table = []
     nrows = 0
+    nops = sc.get('ops_initial', len(sc['operands']))      # operands active at the current step (from the PLAN)
     try:
         for st in history_of(sc):
+            if st[0] == 'addop':
+                add_operands(t, sc, o, first=nops, upto=st[1])
+                nops = st[1]
+                steps.append({'kind': 'addop', 'n': 0})
+                continue
+            if st[0] == 'compensate':
+                with quiet():
+                    t.apply_compensators()
+                    t.reset()
+                cur['trace'] = []
+                steps.append({'kind': 'compensate', 'n': 0, 'diff': snap_diff(res['nominal'], snapshot(o, WS, gl))})
+                continue
             if st[0] == 'advance':
                 for _ in range(st[2]):
                     t.perturbations[st[1]].sampler.sample()
@@ -456,6 +472,7 @@ def run_analysis(sc, observe=True):
                     break
                 row = df.iloc[i]
                 tr['step'] = len(steps)
+                tr['nops'] = nops
                 tr['which'] = which[i] if i < len(which) else []
                 if st[0] == 'mc':
                     tr['values'] = [f(row[res['pert_names'][j]]) for j in tr['which']]
@@ -480,7 +497,7 @@ def run_analysis(sc, observe=True):
     res['sag_after_run'] = sag_deviation(o, sc)
     res['presc_after_run'] = presc(o, sc)
     res['dict_diff_run'] = [x for stp in steps for x in stp.get('dict_diff_run', [])]
-    res['diff_run_steps'] = [x for stp in steps for x in stp.get('diff_run', [])]
+    res['diff_run_steps'] = [x for stp in steps for x in stp.get('diff_run', []) + stp.get('diff', [])]
     with quiet():
         t.reset()
     res['after_reset'] = snapshot(o, WS, gl)
@@ -518,10 +535,17 @@ def pre_apply(o, sc, variant):
                     o.set_radius(np.inf, h['kw']['surface_number'])
 
 
-def fresh_eval(sc, which, values, targets, variant=()):
+def nominal_targets(sc):
+    """value of every operand of the scenario on a freshly built nominal lens (the default target of add_operand)"""
+    o = build(sc)
+    with quiet():
+        return [f(op.value) for op in add_operands(None, sc, o, [0.0] * len(sc['operands']))]
+
+
+def fresh_eval(sc, which, values, targets, variant=(), nops=None):
     o = build(sc)
     pre_apply(o, sc, variant)
-    ops = add_operands(None, sc, o, targets)
+    ops = add_operands(None, sc, o, targets, upto=nops)
     with quiet():
         for j, v in zip(which, values):
             if 'intcoef' in variant and sc['perts'][j]['type'] in ('polynomial_coeff', 'chebyshev_coeff'):
@@ -584,10 +608,15 @@ for sc in job['scenarios']:
             continue
         tol = 1e-6 if sc['comps'] else 1e-9
         orc = []
+        edit = 'ops_initial' in sc
+        if edit:
+            # operand-edit history: every row is replayed with the operands ACTIVE AT THAT STEP OF THE PLAN, targets = their
+            # values on a freshly built nominal lens (nothing read from the Tolerancing under test)
+            res['targets'] = r['targets'] = nominal_targets(sc)
         for tr in res['trials']:
             if sc.get('skip_oracle'):
                 break
-            fr, fsnap = fresh_eval(sc, tr['which'], tr['values'], res['targets'])
+            fr, fsnap = fresh_eval(sc, tr['which'], tr['values'], res['targets'], nops=tr.get('nops') if edit else None)
             ok = all(close(a, b, tol) for a, b in zip(fr, tr['row_ops'])) and len(fr) == len(tr['row_ops'])
             resolved = False
             if ok and not sc['comps']:
@@ -604,6 +633,11 @@ for sc in job['scenarios']:
             # where the lens at evaluation differs from the freshly built one (attribution of state-level mismatches)
             e = {'fresh': fr, 'ok': ok, 'resolved': resolved, 'ray_ops': LAST.get('ray_ops'), 'state_diff': snap_diff(fsnap, tr['snap'], 1e-6 if sc['comps'] else 1e-9),
                  'nominal_diff': snap_diff(res['nominal'], tr['snap'])}
+            if edit and tr.get('nops', 0) > sc['ops_initial']:
+                # non-triviality: does the operand added later move the compensated optimum of this row?
+                f0, fsnap0 = fresh_eval(sc, tr['which'], tr['values'], res['targets'], nops=sc['ops_initial'])
+                e['edit_matters'] = bool(snap_diff(fsnap0, fsnap, 1e-5))
+                e['fresh_initial_ops'] = f0
             if not ok:
                 e['explained'] = None
                 for variant in (('d23',), ('plane',), ('d23', 'plane'), ('intcoef',)):
